@@ -87,12 +87,12 @@ fn cap(c: Option<anstyle::Color>) -> Option<anstyle::AnsiColor> {
 }
 
 /// write_all against every extractor answer (0-2 runs, arbitrary styles, 1-2 byte texts) and
-/// every console script with at most two misbehaving calls
-#[cfg_attr(kani, kani::proof, kani::unwind(14),
+/// every console script with at most one misbehaving call
+#[cfg_attr(kani, kani::proof, kani::unwind(8),
     kani::stub(crate::adapter::wincon::next_bytes, crate::adapter::verif_kani_wincon_sgr::wincon_next_recorder))]
 fn wincon_write_all_plumbing() {
     let buf = [b'x'; 3];
-    let mut console = Console::new(2);
+    let mut console = Console::new(1);
     let mut state = WinconBytes::new();
     let r = write_all(&mut console, &mut state, &buf);
     let (nruns, total) = unsafe { (RUN_N, RUN_TOTAL) };
@@ -145,12 +145,12 @@ fn wincon_write_all_plumbing() {
     if fatal.is_some() {
         assert!(r.is_err(), "a fatal console outcome is never turned into success");
     }
-    vk::vk_cover!(r.is_ok() && nruns == 2 && console.calls >= 3, "two runs with a retry or short write");
+    vk::vk_cover!(r.is_ok() && nruns == 2 && console.calls >= 3, "two runs with a retry or a short write");
     vk::vk_cover!(r.is_err(), "error path");
 }
 
 /// `write`: one console call per run; a buffer is reported as consumed only if all of its text was handed over
-#[cfg_attr(kani, kani::proof, kani::unwind(14),
+#[cfg_attr(kani, kani::proof, kani::unwind(8),
     kani::stub(crate::adapter::wincon::next_bytes, crate::adapter::verif_kani_wincon_sgr::wincon_next_recorder))]
 fn wincon_write_reports_progress() {
     let buf = [b'x'; 3];
